@@ -123,7 +123,7 @@ def gen_cases(ctx, deep=False):
     # to-one reference (I[1].owner) changing under the reader: the value is the identity of the referenced row
     for prog in ([['R'], ['F'], ['R']], [['F'], ['R'], ['F'], ['R']], [['R'], ['F'], ['F'], ['R']]):
         for db0 in (1, None):
-            for m in (0, 1, 2):
+            for m in (0, 1) + ((2,) if big else ()):
                 for ops in insertions(prog, [['X', 2], ['X', None], ['X', 1]], m):
                     put({'kind': 'ref', 'db0': db0, 'ops': ops})
     put({'kind': 'proj'})
@@ -250,7 +250,7 @@ def correspondence(ctx):
             continue
         if c['kind'] == 'ref': dist['to_one_reference'] = dist.get('to_one_reference', 0) + 1
         dist['scalar' if c['kind'] in ('scalar', 'ref') else 'many_to_many' if c['m2m'] else {'plain': 'one_to_many', 'unique': 'one_to_many_ref_in_unique_key', 'pk': 'one_to_many_ref_in_pk'}[c.get('ref', 'plain')]] += 1
-        dist['ended_in_UnrepeatableReadError'] += bool(r['failed'])
+        dist['ended_in_UnrepeatableReadError'] += bool(r.get('failed'))
         dist['writer_actions'] += sum(1 for op in c['ops'] if op[0] in ('X', 'move', 'link', 'unlink'))
         dist['observations'] += len(r['events'])
         if r['other'] or r['lock_left_held']:
@@ -267,7 +267,7 @@ def correspondence(ctx):
         c, r = meta[i]
         disagreements.append({'what': 'model and real session differ (failure flag / observations / read bits set on the members by copy)', 'input': c,
                               'impl': {'failed': r['failed'], 'events': r['events'], 'model_events': r['model']}, 'coq_case': exprs[i][:1500]})
-    picks = [x for x in zip(cases, results) if x[1]['failed']][:2] + [x for x in zip(cases, results) if x[0]['kind'] == 'coll' and not x[1]['failed']][-1:]
+    picks = [x for x in zip(cases, results) if x[1].get('failed')][:2] + [x for x in zip(cases, results) if x[0]['kind'] == 'coll' and not x[1]['failed']][-1:]
     for c, r in picks:
         samples.append({'case': c, 'failed': r['failed'], 'observed': r['events'], 'model_events': r['model']})
     return Corr(cases=len(exprs), nontrivial=len(nontriv), disagreements=disagreements, samples=samples, distribution=dist,
